@@ -244,15 +244,6 @@ End Bounds.
 Lemma joint_psd_of_kernel n b (K S : 'M[R]_n) (K_qx : 'M[R]_(b, n)) (K_qq : 'M[R]_b) :
   psd (block_mx K K_qx^T K_qx K_qq) -> psd S ->
   psd (block_mx (K + S) K_qx^T K_qx K_qq).
-Proof.
-move=> pK pS.
-have -> : block_mx (K + S) K_qx^T K_qx K_qq
-          = block_mx K K_qx^T K_qx K_qq + block_mx S 0 0 0.
-  by rewrite add_block_mx !addr0.
-apply: psd_add => // z; rewrite /qform -(vsubmxK z).
-set u := usubmx z; set w := dsubmx z.
-rewrite -mulmxA mul_block_col !mul0mx !addr0 tr_col_mx mul_row_col mulmx0 addr0.
-by rewrite mulmxA; apply: pS.
-Qed.
+Proof. exact: joint_psd. Qed.
 
 End Gp.
